@@ -228,9 +228,13 @@ class World(object):
         def gen_id():
             n = next(ids)
             if self.sym_ids:
-                # uuids are random: their relative order (ORDER BY id) is a
-                # solver choice
-                return '%s-%05d' % (symx.choice('idp%d' % n, ['m', 'c']), n)
+                # uuids are random: the relative order of task execution
+                # ids (ORDER BY id) is a solver choice
+                import sys
+                f = sys._getframe(1)
+                if f.f_code.co_name == '_create_task_execution':
+                    return '%s-%05d' % (symx.choice('idp%d' % n,
+                                                    ['m', 'c']), n)
             return 'u-%05d' % n
         st.enter_context(env.patched(mlu, 'generate_unicode_uuid', gen_id))
         st.enter_context(env.patched(sched_base, '_SCHEDULER',
